@@ -117,7 +117,7 @@ Export == (ph = 1 /\ Canon) =>
   CSVWrite("%1$s", <<ToJson(IF Part = "limits"
                             THEN (IF c.r = "depth" THEN [k |-> "limit", r |-> c.r, n |-> c.d, nest |-> c.nest, form |-> c.form, pred |-> "any"]
                                   ELSE [k |-> "limit", r |-> c.r, n |-> Capacity(c.r) + c.d, nest |-> c.nest, form |-> c.form, pred |-> Predict(c.r, Capacity(c.r) + c.d)])
-                            ELSE IF Part = "near" THEN [k |-> "near", s |-> Edit(Edit(Skel[c.d], c.e1), c.e2)]
+                            ELSE IF Part = "near" THEN [k |-> "near", s |-> Edit(Edit(Skel[c.d], c.e1), c.e2), v |-> (c.e2.t = 0)]   \* v: compile under every variant (single edits only)
                             ELSE IF Part = "evalseq" THEN [k |-> "evalseq", s |-> [i \in 1..c.n |-> Frags[c.s[i]]]]
                             ELSE [k |-> "soup", s |-> [i \in 1..c.n |-> Tokens[c.s[i]]]])>>, IOEnv.OUT)
 =============================================================================
